@@ -676,15 +676,20 @@ var _ uuid.UUID
 //@ assume
 //@ modifies nothing
 
+// the partition a batch item belongs to: the one the single-item path (getPartitionForId) selects for its id
+//@ spec ownerOf(d *Dataset, it *pb.BatchItem) *partition = d.partitions[uuidmod(uuidOfBytes(it.Id), d.meta.PartitionCount)]
 //@ func (*storage.Dataset).groupBatchItemsByPartition
 //@ props C12 C10
 //@ requires [wf] wfDatasetFull(this)
 //@ requires [decoded] noNilItems(items)
 //@ ensures [groups] isnil(ret1) ==> ret0 != nil && fresh(ret0) && wfGroups(this, ret0)
+//@ ensures [C10 batch-routes-like-single] isnil(ret1) ==> forall p *partition, i int :: has(ret0, p) && 0 <= i && i < len(ret0[p]) ==> p == ownerOf(this, ret0[p][i])
 //@ ensures [nil-on-error] !isnil(ret1) ==> ret0 == nil
 //@ modifies nothing
 //@ loop 1
 //@ invariant [map] result != nil && fresh(result) && wfDatasetFull(this) && noNilItems(items)
+//@ invariant [disjoint-lists] forall p *partition, q *partition :: has(result, p) && has(result, q) && p != q ==> result[p].ref != result[q].ref
+//@ invariant [C10 routing] forall p *partition, i int :: has(result, p) && 0 <= i && i < len(result[p]) ==> p == ownerOf(this, result[p][i])
 //@ invariant [partitions] !has(result, nil) && forall p *partition :: has(result, p) ==> wfPartition(this, p)
 //@ invariant [items] forall p *partition, i int :: has(result, p) && 0 <= i && i < len(result[p]) ==> result[p][i] != nil
 //@ invariant [lists-local] forall p *partition :: has(result, p) ==> fresh(result[p]) && allocated(result[p])
